@@ -75,7 +75,9 @@ type Frame struct {
 }
 
 type LoopEntry struct {
-	dec []*Term // decreases expressions' values at head
+	dec     []*Term // decreases expressions' values at head
+	trace   *Term   // the ghost trace at the head, this iteration
+	ordinal int
 }
 
 type State struct {
